@@ -4,6 +4,8 @@ Decided statically: every data RPC derives its tenant from the authenticated con
 client ids into the tenant's id range before they reach the engine and back before they leave, checks ownership (and the
 namespace selector) before any mutation, positive answer or result push, overwrites the reserved metadata keys on every
 write, sanitises every metadata map that leaves the server, scopes /usage, and installs the authenticating interceptor.
+The tenant index is looked up under the authenticated id itself (R11), /usage reads no cross-tenant component of the server state
+(R12) and a new index is handed out only after tenants.json is durable (R13).
 Leaks through the number of results of a global k-NN that is filtered afterwards, and timing, are not decided.
 """
 import json
@@ -16,7 +18,8 @@ MANIFEST = {
             'inventory with tenant derivation before the request body is read; sink-side id mapping (every doc id reaching the '
             'engine from a tenant-scoped handler originates from map_doc_id, every id in a response from the request or unmap_doc_id); '
             'path-sensitive ownership/namespace guard before each sensitive action; reserved-key table on the four write paths; '
-            'sanitised metadata in every response aggregate; /usage scoping; interceptor shape and constant-time key validation. '
+            'sanitised metadata in every response aggregate; /usage scoping and closed sources of its report; interceptor shape and constant-time key '
+            'validation; index lookup keyed by the validated tenant id as is; durable tenant map before an index is handed out. '
             'Necessary conditions; result-count and timing side channels of the global k-NN are not decided.',
     'design_ref': 'DESIGN.md §4.10',
     'note': 'Trusted base: rustc MIR, variable-level guard predicates, path-sensitive exploration per handler, origin tracing through '
@@ -933,7 +936,8 @@ def tenant_map_durable(ctx, prog):
     syn = [c for c in p.calls if c.callee and re.search(r'fs::File::sync_(all|data)$', c.callee)]
     ren = [c for c in p.calls if c.callee and c.callee.endswith('std::fs::rename')]
     tmpf = [c for c in syn if 'OpenOptions::open(' in flow.render(o.of_operand(c.args[0])) or 'File::create(' in flow.render(o.of_operand(c.args[0]))]
-    dirs = [c for c in syn if c.callee.endswith('sync_all') and re.match(r'^File::open\(Path::parent\(arg:path\)', flow.render(o.of_operand(c.args[0])))]
+    # the directory handle: opened read-only (File::open) on the parent of the path argument itself, not on something joined below it
+    dirs = [c for c in syn if c.callee.endswith('sync_all') and (lambda r_: r_.startswith('File::open(') and 'Path::parent(arg:path)' in r_ and 'Path::join(' not in r_)(flow.render(o.of_operand(c.args[0])))]
     steps = [util.Step('write_all(tmp)', p, [c.bb for c in wr]), util.Step('sync_all(tmp)', p, [c.bb for c in tmpf]),
              util.Step('rename(tmp → path)', p, [c.bb for c in ren]), util.Step('sync_all(parent dir)', p, [c.bb for c in dirs])]
     WHY = {'write_all(tmp)': 'nothing is written to the temp file', 'sync_all(tmp)': 'the temp file is not fsynced before the rename: after a power failure tenants.json can be '
